@@ -1,4 +1,4 @@
-package zzverif
+package libtime
 
 // Nondeterminism shim for verification harnesses (native build).
 //
